@@ -153,6 +153,29 @@ func syncRetryClone(repo string) (string, string, error) {
 			return true
 		})
 	}
+	// Request.do starts with r.unmergeClientSettings(), and that function sets r.RetryAttempt = 0
+	// unconditionally (a top-level statement with no return / branch before it)
+	resets := false
+	if do := findFunc(files, "*Request", "do"); do != nil && do.Body != nil && len(do.Body.List) > 0 {
+		if es, ok := do.Body.List[0].(*ast.ExprStmt); ok && exprString(es.X) == "r.unmergeClientSettings()" {
+			if um := findFunc(files, "*Request", "unmergeClientSettings"); um != nil && um.Body != nil {
+			scan:
+				for _, stmt := range um.Body.List {
+					switch x := stmt.(type) {
+					case *ast.AssignStmt:
+						if len(x.Lhs) == 1 && len(x.Rhs) == 1 && exprString(x.Lhs[0]) == "r.RetryAttempt" {
+							if lit, ok := x.Rhs[0].(*ast.BasicLit); ok && lit.Value == "0" {
+								resets = true
+							}
+							break scan
+						}
+					case *ast.ReturnStmt, *ast.IfStmt, *ast.SwitchStmt:
+						break scan
+					}
+				}
+			}
+		}
+	}
 	type st struct{ recv, name, field string }
 	setters := []st{
 		{"*Client", "SetCommonRetryCondition", "RetryConditions"}, {"*Client", "AddCommonRetryCondition", "RetryConditions"},
@@ -171,6 +194,7 @@ func syncRetryClone(repo string) (string, string, error) {
 	sb.WriteString("Inductive setter_kind := KSet | KAdd | KOther.\n\n")
 	fmt.Fprintf(&sb, "(* retryOption.Clone: o.RetryConditions / o.RetryHooks *)\nDefinition clone_conditions : clone_mode := %s.\nDefinition clone_hooks : clone_mode := %s.\n\n", cloneMode(clone, "RetryConditions"), cloneMode(clone, "RetryHooks"))
 	fmt.Fprintf(&sb, "(* Client.R() gives the request c.retryOption.Clone() *)\nDefinition r_clones_option : bool := %s.\n\n", hk.CoqBool(rClones))
+	fmt.Fprintf(&sb, "(* Request.do begins with unmergeClientSettings, which restarts RetryAttempt at 0 whatever the entry point *)\nDefinition do_resets_attempt : bool := %s.\n\n", hk.CoqBool(resets))
 	sb.WriteString("(* what each setter does to its slice *)\nDefinition setter_table : list (bytes * setter_kind) := [\n" + strings.Join(rows, ";\n") + "\n].\n")
 	return "RetryClone.v", sb.String(), nil
 }
